@@ -64,6 +64,7 @@ class HistRunner:
         self.last_build = None
         self.last_result = None
         self.late = set()
+        self.last_recs = []
         prog.write_all(self.top, self.clock)
 
     def close(self):
@@ -159,6 +160,8 @@ class HistRunner:
             env['REDO_SHUFFLE'] = '1'
         if extra_env:
             env.update(extra_env)
+        if os.environ.get('RV_REDO_DEBUG'):
+            env['REDO_DEBUG'] = os.environ['RV_REDO_DEBUG']
         js = None
         pass_fds = ()
         if j > 1 and argv[0] != 'redo':
@@ -208,9 +211,21 @@ class HistRunner:
             return entry, anoms, None
         # ---- model
         m_before = m.copy()
-        ok, ctx = m.command(list(targets), forced=forced, keep=keep, obs=set(ex))
-        late_hits = [(n, ctx['reasons'][n].split(':', 1)[1]) for n in set(ctx['ran']) - set(ex)
-                     if (ctx['reasons'].get(n) or '').startswith('dep-changed:')]
+        ok, ctx = m.command(list(targets), forced=forced, keep=keep, obs=set(ex), obsn=dict(ex))
+        def missing_runs(ctx):
+            # (target, reason) of model executions that the observation does not have (multiset difference)
+            out = []
+            left = dict(ex)
+            for n, why in sorted(ctx['why_list'], key=lambda x: x[1] == 'forced'):     # forced runs are matched last
+                pass
+            seen_cnt = {}
+            for n in set(ctx['ran']):
+                k = ctx['ran'].count(n) - ex.get(n, 0)
+                if k > 0:
+                    whys = [w for (x, w) in ctx['why_list'] if x == n and w != 'forced'] or [ctx['reasons'].get(n)]
+                    out.extend((n, w) for w in whys[:k])
+            return out
+        late_hits = [(n, (w or '').split(':', 1)[1]) for n, w in missing_runs(ctx) if (w or '').startswith('dep-changed:')]
         late_hits = [h for h in late_hits if h in self.late]
         if late_hits:
             # redo does not notice a dependency that was force-rebuilt later in the same run in which the
@@ -220,10 +235,10 @@ class HistRunner:
                 if d in m.R[dn].seen:
                     m.R[dn].seen[d] = m.ver(d)
             self.late = set()
-            ok, ctx = m.command(list(targets), forced=forced, keep=keep, obs=set(ex))
-            anoms.append(Anomaly(cls='underbuild', key='underbuild:dependency-force-rebuilt-after-dependent-was-checked-in-same-run',
+            ok, ctx = m.command(list(targets), forced=forced, keep=keep, obs=set(ex), obsn=dict(ex))
+            anoms.append(Anomaly(cls='underbuild', key='underbuild:forced-rebuild-after-check-in-same-run-not-seen-by-dependents',
                                  cont=True, target=late_hits[0][0],
-                                 what='%s was not rebuilt although %s was force-rebuilt (redo) later in the run that had already checked it'
+                                 what='%s was not rebuilt although %s was force-rebuilt (redo) in a run that had already checked one of them'
                                       % late_hits[0]))
         self.late |= ctx['late']
         for n, why in ctx['reasons'].items():
@@ -250,18 +265,23 @@ class HistRunner:
         for n in sorted(set(ex) - exp):
             anoms.append(Anomaly(cls='overbuild', key='overbuild:%s:%s' % (kinds_of(p, n), 'stamp-below' if stamp_below(p, n) else 'no-stamp-below'),
                                  target=n, what='%s ran although the model finds no reason' % n))
-        for n in sorted(exp - set(ex)):
-            anoms.append(Anomaly(cls='underbuild', key='underbuild:%s:%s' % (kinds_of(p, n), reason_class(ctx['reasons'].get(n))),
-                                 target=n, what='%s did not run; model reason: %s' % (n, ctx['reasons'].get(n))))
+        for n, w in sorted(missing_runs(ctx), key=str):
+            anoms.append(Anomaly(cls='underbuild', key='underbuild:%s:%s' % (kinds_of(p, n), reason_class(w)),
+                                 target=n, what='%s ran %d time(s), the model expects %d; model reason: %s' % (n, ex.get(n, 0), ctx['ran'].count(n), w)))
         if (r.rc == 0) != ok:
             anoms.append(Anomaly(cls='exit', key='exit:%s:rc=%s' % ('expected-ok' if ok else 'expected-failure', r.rc),
                                  what='exit status %s but model says ok=%s; stderr tail: %s' % (r.rc, ok, r.err[-300:].replace('\n', ' | '))))
-        # ---- contents after success
+        # ---- contents after success (whole closure) and, after a failing command, of every target the
+        # model knows to have been brought up to date by it
         stale = []
+        self.last_recs = recs
+        clo = set()
         if r.rc == 0:
-            clo = set()
             for t in targets:
                 p.closure(t, clo)
+        else:
+            clo = set(n for n, okd in ctx['done'].items() if okd and m.is_target(n) and p.buildable(n, {}))
+        if clo:
             memo = {}
             for n in sorted(clo):
                 want = p.expected(n, memo)
@@ -311,13 +331,13 @@ class HistRunner:
             common.rmtree(tmpd)
 
 
-def run_history(seed, prof, tag='h', stop_on=('stale', 'overbuild', 'underbuild', 'exit', 'crash', 'stuck', 'timeout', 'multi', 'overlap', 'user-file-touched'),
+def run_history(seed, prof, tag='h', verif_log=False, stop_on=('stale', 'overbuild', 'underbuild', 'exit', 'crash', 'stuck', 'timeout', 'multi', 'overlap', 'user-file-touched'),
                 hook=None, prog=None, ops=None):
     """Generate and run one history.  Returns dict(runner stats, anomalies, history, program spec).
     `hook(runner, step, op, entry, anoms, ctx)` lets a check add its own observations after each op."""
     rnd = random.Random(seed)
     p = prog or gen.gen_program(rnd, prof)
-    hr = HistRunner(p, tag=tag)
+    hr = HistRunner(p, tag=tag, verif_log=verif_log)
     try:
         nsteps = len(ops) if ops is not None else gen.gen_history(rnd, p, prof)
         extra = []
